@@ -11,6 +11,8 @@ from .sym import (Sc, Forall, flatten, to_z3, wrap, band, bnot, implies, compare
 
 import os as _os
 DUMP_DIR = _os.environ.get('SEDVC_DUMP')
+DUMP_MATCH = _os.environ.get('SEDVC_DUMP_MATCH')      # only obligations whose name contains this
+CURRENT = ['']
 _dump_counter = itertools.count()
 MAX_TERMS = 28
 MAX_INST = 6000
@@ -414,6 +416,7 @@ KEEP_QUERY = [False]
 def prove(ob, timeout_ms=20000, global_axioms=(), want_model=False, keep_query=False):
     """Discharge one Obligation.  Returns Result."""
     KEEP_QUERY[0] = bool(keep_query)
+    CURRENT[0] = '%s[%s]' % (ob.name, ob.path)
     t0 = time.time()
     from .sym import Stale
     if isinstance(ob.goal, Stale):
@@ -452,7 +455,7 @@ def prove(ob, timeout_ms=20000, global_axioms=(), want_model=False, keep_query=F
         g_terms = [to_z3(g, 'bool') for g in guards if g is not True]
         del TRACE[:]
         status, d, m = _prove_one(ground, foralls, g_terms, goal, timeout_ms, want_model)
-        if _os.environ.get('SEDVC_TRACE') and status != 'proved':
+        if _os.environ.get('SEDVC_TRACE') and (status != 'proved' or _os.environ.get('SEDVC_TRACE') == 'all'):
             import sys as _sys
             _sys.stderr.write('TRACE %s [%s] %s %s\n' % (ob.name, ob.path, status, TRACE))
         if status != 'proved':
@@ -521,8 +524,9 @@ def _answer(out, want_model):
 
 def run_z3(smt2, timeout_ms, want_model=False, portfolio=True):
     """Run the query in separate solver processes (hard timeouts).  The primary is z3 5.x; if it
-    does not answer quickly a small portfolio joins in (another random seed, the assertions in
-    another order, z3 4.8.12): the first definite answer wins.  Returns (status, model text)."""
+    does not answer quickly a small portfolio joins in (the nonlinear solver without its Groebner
+    step, z3 4.8.12 on the same text, another seed / z3 4.8.12 on the assertions in another order): the first
+    definite answer wins.  Returns (status, model text)."""
     import time as _t
     tsec = max(1, int(timeout_ms / 1000) + 1)
     seed = _os.environ.get('VERIF_SEED', '0')
@@ -552,7 +556,10 @@ def run_z3(smt2, timeout_ms, want_model=False, portfolio=True):
             if portfolio and not launched and _t.time() - t0 > grace:
                 launched = True
                 left = max(1, int(deadline - _t.time() - 2))
-                for cmd, text in (([Z3_BIN, '-T:%d' % left, 'smt.random_seed=7'], smt2),
+                # members differ in what was seen to matter on the unstable queries of this code base (DESIGN.md 2.4):
+                # the Groebner-basis step of the nonlinear solver, the z3 version, the order of the assertions
+                for cmd, text in (([Z3_BIN, '-T:%d' % left, 'smt.arith.nl.grobner=false'], smt2),
+                                  ([Z3_OLD, '-T:%d' % left], smt2),
                                   ([Z3_BIN, '-T:%d' % left, 'smt.random_seed=3'], _shuffled(smt2, 1)),
                                   ([Z3_OLD, '-T:%d' % left], _shuffled(smt2, 2))):
                     p, path = _launch(cmd, text, want_model)
@@ -678,7 +685,7 @@ def _prove_one(ground, foralls, guards, goal, timeout_ms, want_model):
             s.add(f)
         s.add(z3.Not(goal))
         smt2 = s.to_smt2()
-        if DUMP_DIR:
+        if DUMP_DIR and (not DUMP_MATCH or DUMP_MATCH in CURRENT[0]):
             _os.makedirs(DUMP_DIR, exist_ok=True)
             with open(_os.path.join(DUMP_DIR, 'p%d_q%04d_%d.smt2' % (_os.getpid(), next(_dump_counter), stage)), 'w') as fdump:
                 fdump.write(smt2)
